@@ -2,6 +2,7 @@
 import Driver.Util
 import Driver.OpsView
 import Driver.OpsPack
+import Driver.OpsContent
 
 open Jubako Jubako.Driver
 
@@ -23,6 +24,8 @@ def dispatch (line : String) : IO String := do
   | "pk.checkx" :: args => runPack fileOf "pk.checkx" args
   | "mp.infos" :: args => runPack fileOf "mp.infos" args
   | "mp.setloc" :: args => runPack readFileBytes "mp.setloc" args
+  | "cp.decode" :: args => runContent fileOf "cp.decode" args
+  | "cp.encode" :: args => runContent fileOf "cp.encode" args
   | ["ping"] => return "pong"
   | _ => return "bad-op"
 
